@@ -152,6 +152,35 @@ def rule_pr2(ctx: Ctx) -> RuleResult:
                         if m.method == "on_next" and m.role == "down":
                             emits = (cfg, p, m)
             key = (site.anchor_rel, site.short.split(".")[0])
+            if emits is not None and "flush" in plain_allowed.get(key, ""):
+                # a codec may emit what its flush returns when the source completes, and nothing else: the output of every
+                # chunk must leave while the chunk is handled, not be kept for the end of the stream
+                from ..model import valuations as _vals
+                for cfg2 in _vals(ctx.space(spec)):
+                    for p2 in ctx.paths(spec, None, cfg2):
+                        inloop = False
+                        n_items = 0
+                        for e2 in p2.trace:
+                            if e2.k == "loopiter":
+                                inloop = True
+                            elif e2.k == "loopexit":
+                                inloop = False
+                            elif e2.k == "emit" and e2.method == "on_next":
+                                n_items += 1
+                                r.ob(not inloop, lambda p2=p2, e2=e2, cfg2=cfg2: mk_finding(
+                                    "PR-2", spec, None, cfg2, p2, "items are emitted from a loop when the source completes: outputs that were determined by "
+                                    "earlier chunks are withheld until the end of the stream", node=e2.node, extra="replay-at-completion"))
+                        r.ob(n_items <= 1, lambda p2=p2, cfg2=cfg2: mk_finding(
+                            "PR-2", spec, None, cfg2, p2, "more than the flush output is emitted at completion (%s)" % summary(p2), extra="replay-at-completion"))
+                for nspec in site.handler_specs("on_next"):
+                    for cfg2 in _vals(ctx.space(nspec)):
+                        for p2 in ctx.paths(nspec, None, cfg2):
+                            if any(e2.d.get("raised") for e2 in p2.trace) or p2.outcome == "raise":
+                                continue
+                            outs = [e2 for e2 in p2.trace if e2.k == "emit" and e2.method in ("on_next", "on_error") and e2.target == ("obs", "down")]
+                            r.ob(bool(outs), lambda p2=p2, cfg2=cfg2, nspec=nspec: mk_finding(
+                                "PR-2", nspec, None, cfg2, p2, "a chunk is consumed without emitting the codec's output for it: the output is withheld "
+                                "(until a later chunk or the end of the stream)", extra="chunk-withheld"))
             if emits is not None:
                 cfg, p, m = emits
                 r.ob(key in plain_allowed, lambda: mk_finding(
